@@ -193,20 +193,16 @@ def stale_tmp_scenario():
     return problems
 
 
-def run(ctx):
-    rng = random.Random(ctx["seed"] * 37 + 10)
-    viol = ctx.setdefault("violations", [])
-    thorough = ctx["tier"] == "thorough"
-    # (1) histories with kills through the shared Deps check
-    feats = dict(stamp=0.3, always=0.1, fail=0.1, ifcreate=0.2, default=0.3)
-    base_rng = random.Random(ctx["seed"] * 41 + 10)
-    extra = [with_crashes(rng, depsgen.gen_case(base_rng, features=feats)) for _ in range(240 if thorough else 36)]
-    kf_stamp = [k for k in known_findings("C10") if k.get("id") == "stamp-before-record" and k.get("status") == "known"]
+def kill_window_matcher(listed_under):
+    """Matcher for the two recorded findings of the "two-stage commit" family, as listed in known_findings.json under
+    property `listed_under` (C10, and C01 — whose histories contain killed builds too)."""
+    kf_stamp = [k for k in known_findings(listed_under) if k.get("id") == "stamp-before-record" and k.get("status") == "known"]
+    kf_do = [k for k in known_findings(listed_under) if k.get("id") == "killed-build-forgets-old-dofile" and k.get("status") == "known"]
 
-    def stamp_window_matcher(case, mon):
+    def matcher(case, mon):
         """A stale target after an exit-0 build is the recorded finding only if an earlier build of the history was
         killed after `redo-stamp` of a script that stamps (kill step = number of its redo-ifchange commands + 1)."""
-        if not kf_stamp or mon[0] not in ("C01", "C10"):
+        if mon[0] not in ("C01", "C10"):
             return None
         progs, cur = {}, {}
         tgt_of_do = {cs[0]: t for t, cs in case.rules.items()}
@@ -215,14 +211,14 @@ def run(ctx):
                 progs[o[1]] = o[2]
             elif o[0] == "w" and o[1] in tgt_of_do and o[2] in progs:
                 cur[tgt_of_do[o[1]]] = progs[o[2]]
-            elif o[0] == "crash":
+            elif o[0] == "crash" and kf_stamp:
                 sc = cur.get(o[2], {})
                 if sc.get("stamp") and o[3] == len(sc.get("ifchange", [])) + 1:
                     return "a build killed after `redo-stamp` and before the result was recorded leaves the target marked changed/checked in that run with the old file: a later redo-ifchange exits 0 with stale content (history with a kill at the after-stamp step of %s)" % case.names[o[2]]
         # the .do-search window: the stale target has several .do candidates, and a build was killed after one of its
         # candidates had been created or removed
         m = re.search(r"target (\d+) \(", mon[1])
-        if m and [k for k in known_findings("C10") if k.get("id") == "killed-build-forgets-old-dofile" and k.get("status") == "known"]:
+        if m and kf_do:
             t = int(m.group(1))
             cands = case.rules.get(t, [])
             touched = False
@@ -232,6 +228,18 @@ def run(ctx):
                 elif o[0] == "crash" and touched and len(cands) >= 2:
                     return "a build killed after the .do search, following a change of which .do candidate of %s exists, loses the row on the previously used .do: a later redo-ifchange exits 0 with the old script's output" % case.names[t]
         return None
+    return matcher
+
+
+def run(ctx):
+    rng = random.Random(ctx["seed"] * 37 + 10)
+    viol = ctx.setdefault("violations", [])
+    thorough = ctx["tier"] == "thorough"
+    # (1) histories with kills through the shared Deps check
+    feats = dict(stamp=0.3, always=0.1, fail=0.1, ifcreate=0.2, default=0.3)
+    base_rng = random.Random(ctx["seed"] * 41 + 10)
+    extra = [with_crashes(rng, depsgen.gen_case(base_rng, features=feats)) for _ in range(240 if thorough else 36)]
+    stamp_window_matcher = kill_window_matcher("C10")
     cov = deps_check.run_property(ctx, "C10", feats, 0, {"C01", "C10"}, extra_cases=extra, known_matcher=stamp_window_matcher)
     cov["crash_ops"] = sum(1 for c in extra for o in c.ops if o[0] == "crash")
     known_hit = cov.get("known_hit", [])
